@@ -304,9 +304,23 @@ class Model:
         return bytes(buf), size
 
     # ----------------------------------------------------------------- dump
-    def dump_member(self, m, value, out, comp_consts=True):
+    def enum_value_name(self, m, value):
+        for v in m.target["values"]:
+            num = ord(v["value"]) if m.prim == "char" else int(v["value"])
+            if num & (2 ** (8 * m.size) - 1) == value & (2 ** (8 * m.size) - 1):
+                return v["name"]
+        return "?"
+
+    def set_choices_text(self, m, value):
+        return ",".join("%s=%d" % (c["name"], (value >> c["index"]) & 1) for c in m.target["choices"]) or "-"
+
+    def dump_member(self, m, value, out, comp_consts=True, vis_extras=False):
         if m.kind in ("scalar", "enum", "set"):
             out.append("F %s %x" % (m.name, value & (2 ** (8 * m.size) - 1)))
+            if vis_extras and m.kind == "enum":
+                out.append("V %s" % self.enum_value_name(m, value))
+            if vis_extras and m.kind == "set":
+                out.append("S %s" % self.set_choices_text(m, value))
         elif m.kind == "array":
             out.append("A %s %s" % (m.name, value.hex() or "-"))
         elif m.kind in ("const", "constenum"):
@@ -320,30 +334,62 @@ class Model:
             for e in m.elements:
                 if e.is_const and not comp_consts:
                     continue
-                self.dump_member(e, None if e.is_const else value[e.name], out, comp_consts)
+                self.dump_member(e, None if e.is_const else value[e.name], out, comp_consts, vis_extras)
             out.append("}")
 
-    def dump_level(self, L, vals, out, extra, with_consts=True, comp_consts=True):
+    def dump_level(self, L, vals, out, extra, with_consts=True, comp_consts=True, vis_extras=False):
         for m in L.fields:
             if m.is_const and not with_consts:
                 continue
-            self.dump_member(m, None if m.is_const else vals["fields"][m.name], out, comp_consts)
+            self.dump_member(m, None if m.is_const else vals["fields"][m.name], out, comp_consts, vis_extras)
         for g in L.groups:
             gv = vals["groups"][g.name]
             out.append("G %s %d %d {" % (g.name, len(gv["entries"]), g.block_length + gv.get("extra", 0)))
             for i, e in enumerate(gv["entries"]):
                 out.append("E %d {" % i)
-                self.dump_level(g, e, out, gv.get("extra", 0), with_consts, comp_consts)
+                self.dump_level(g, e, out, gv.get("extra", 0), with_consts, comp_consts, vis_extras)
                 out.append("}")
             out.append("}")
         for d in L.data:
             p = vals["data"][d.name]
             out.append("D %s %d %s" % (d.name, len(p), p.hex() or "-"))
 
-    def dump_message(self, L, vals, with_consts=True, comp_consts=True):
+    def dump_message(self, L, vals, with_consts=True, comp_consts=True, vis_extras=False):
         out = []
-        self.dump_level(L, vals, out, vals.get("extra", 0), with_consts, comp_consts)
+        self.dump_level(L, vals, out, vals.get("extra", 0), with_consts, comp_consts, vis_extras)
         return " ".join(out)
+
+    # --------------------------------------------------------------- events
+    def events(self, L, vals):
+        """flat list of visitor events (one per bool callback) of a full message visit, in order"""
+        ev = []
+
+        def member(m, value):
+            if m.kind in ("scalar", "enum", "set"):
+                ev.append("F %s %x" % (m.name, value & (2 ** (8 * m.size) - 1)))
+            elif m.kind == "array":
+                ev.append("F %s %s" % (m.name, value.hex() or "-"))
+            elif m.kind == "composite":
+                ev.append("C %s" % m.name)
+                for e in m.elements:
+                    if not e.is_const:
+                        member(e, value[e.name])
+
+        def level(Lv, v):
+            for m in Lv.fields:
+                if not m.is_const:
+                    member(m, v["fields"][m.name])
+            for g in Lv.groups:
+                gv = v["groups"][g.name]
+                ev.append("G %s %d" % (g.name, len(gv["entries"])))
+                for i, e in enumerate(gv["entries"]):
+                    ev.append("E %d" % i)
+                    level(g, e)
+            for d in Lv.data:
+                p = v["data"][d.name]
+                ev.append("D %s %d %s" % (d.name, len(p), p.hex() or "-"))
+        level(L, vals)
+        return ev
 
     # ----------------------------------------------------------- statistics
     def all_levels(self):
